@@ -104,3 +104,7 @@ impl PingTracker {
         }
     }
 }
+
+#[cfg(kani)]
+#[path = "/verif/kani/iroh_relay/ping_tracker.rs"]
+mod verif_kani;
